@@ -18,6 +18,9 @@ type Profile struct {
 	// branches without a commit; used by the C13 / C15 plans, whose properties they are not.
 	Plain         bool
 	NoEmptyBranch bool
+	// Script: instead of drawing operations, resolve these symbols in order (exhaust.go);
+	// symbols that do not apply in the current state are skipped.
+	Script []string
 }
 
 const DefaultThreshold = 500 * 1024 * 1024
@@ -129,6 +132,7 @@ type View struct {
 	Tips     map[int]int
 	Live     map[int][]int // branch -> live abstract object ids (nil if unreadable)
 	Vecs     map[int][]int // branch -> ids with vectors
+	Gone     map[int]bool  // branch -> some live object's file has been vacuumed
 	NCommits int
 	NObjs    int
 	ObjsAt   map[int][]int // commit -> object ids (missing if unreadable)
@@ -308,7 +312,9 @@ func (p *Profile) Next(r *rand.Rand, cfg Cfg, v *View) Op {
 			}
 			return Op{Kind: "delvec", Branch: b, IDs: ids}
 		case "delwhere":
-			if v.Tips[b] == 0 {
+			// (a branch with a vacuumed object: the real delete-where reads only the objects
+			// its key pruner lets through, which the model does not predict)
+			if v.Tips[b] == 0 || v.Gone[b] {
 				continue
 			}
 			return Op{Kind: "delwhere", Branch: b, Pred: genPred(r, cfg, 2)}
